@@ -89,7 +89,6 @@ import (
 	"sync"
 	"time"
 
-	"github.com/ipfs/go-cid"
 	dht "github.com/libp2p/go-libp2p-kad-dht"
 	pb "github.com/libp2p/go-libp2p-kad-dht/pb"
 	recpb "github.com/libp2p/go-libp2p-record/pb"
@@ -126,18 +125,21 @@ func init() {
 		"probe_addrs_changed_with_event", "probe_addrs_changed_silently", "probe_provide_after_addr_change",
 		"probe_provide_ok", "probe_all_addrs_filtered", "probe_filter_dropped_some", "probe_provide_deadline_ctx", "probe_provide_deadline_exceeded", "probe_provide_lookup_failed",
 		"probe_recipient_failed_others_served", "probe_recipient_hung_others_served", "probe_R_smaller_than_K",
-		"probe_local_provider_judged", "probe_local_provider_judged_no_addrs", "probe_local_provider_judged_op_failed", "probe_local_provider_judged_no_lookup_result")
+		"probe_local_provider_judged", "probe_local_provider_judged_no_addrs", "probe_local_provider_judged_op_failed", "probe_local_provider_judged_no_lookup_result",
+		"probe_key_identity_hash", "probe_key_hash_not_sha256", "probe_key_cid_v0", "probe_key_codec_not_raw")
 	reg("provide-optimistic", 3, func(s *sim.Sim) { runC06Provide(s, true, false) },
 		"probe_addrs_changed_with_event", "probe_addrs_changed_silently", "probe_provide_after_addr_change",
 		"probe_local_provider_judged", "probe_local_provider_judged_no_addrs",
 		"probe_provide_ok", "probe_all_addrs_filtered", "probe_filter_dropped_some", "probe_estimator_ready", "probe_optimistic_fallback_classic",
 		"probe_optimistic_early_put", "probe_optimistic_extra_recipient", "probe_optimistic_lookup_stopped", "probe_term_stopped", "probe_optimistic_inflight_at_return",
 		"probe_recipient_failed_others_served", "probe_recipient_hung_others_served",
-		"probe_caller_released_ctx", "probe_at_return_requests_judged")
+		"probe_caller_released_ctx", "probe_at_return_requests_judged",
+		"probe_key_identity_hash", "probe_key_hash_not_sha256", "probe_key_cid_v0", "probe_key_codec_not_raw")
 	// the same with lookups that take minutes of virtual time: optimistic provide
 	// budgets all its ADD_PROVIDERs from before the lookup
 	reg("provide-optimistic-slow-lookup", 1, func(s *sim.Sim) { runC06Provide(s, true, true) },
-		"probe_provide_ok", "probe_estimator_ready", "probe_optimistic_lookup_stopped", "probe_op_over_60s")
+		"probe_provide_ok", "probe_estimator_ready", "probe_optimistic_lookup_stopped", "probe_op_over_60s",
+		"probe_key_identity_hash", "probe_key_hash_not_sha256")
 	reg("corrective-put", 3, runC06Corrective,
 		"fault_recipient_bad_echo", "fault_invalid_record", "fault_wrong_key_record", "probe_search_completed", "probe_search_no_value", "probe_quorum_not_reached",
 		"probe_corrective_put_sent", "probe_corrective_none_needed", "probe_holder_of_best_in_R", "probe_local_value_in_search", "probe_best_changed",
@@ -1460,12 +1462,12 @@ func runC06Provide(s *sim.Sim, optimistic, slowLookup bool) {
 			s.Summary["addr-changes"] = addrChanges
 		}
 		content := s.Draw("content", 1<<16)
+		// the form of the key is an input ("for every ... key"): hash function,
+		// digest length, CID version and codec are drawn (c06_keys.go)
+		form := c06DrawKeyForm(s)
+		s.Summary["key-form"] = form.String()
 		mkKey := func(j int) mh.Multihash {
-			sum, err := mh.Sum([]byte(fmt.Sprintf("content-%d-%d-%d", i, content, j)), mh.SHA2_256, -1)
-			if err != nil {
-				panic(err)
-			}
-			return sum
+			return form.sum(fmt.Sprintf("content-%d-%d-%d", i, content, j))
 		}
 		sum := mkKey(0)
 		if optimistic && (slowLookup || s.Chance("far-key", 1, 2)) {
@@ -1475,7 +1477,8 @@ func runC06Provide(s *sim.Sim, optimistic, slowLookup bool) {
 				sum = mkKey(j)
 			}
 		}
-		key := cid.NewCidV1(cid.Raw, sum)
+		key := form.cid(sum)
+		s.Tracef("provide key form %s", form)
 		var deadline time.Duration
 		if !optimistic && s.Chance("deadline", 1, 4) {
 			// a caller deadline exercises the budgeting of classicProvide; 3 s can
